@@ -545,35 +545,25 @@ Proof. exact ex_sb_premises. Qed.
 From AGH Require Import Model.Protection Proofs.Protection.
 Local Open Scope Z_scope.
 
-(** For every history of switches, clock readings (DNS requests, status
-    reads) and wake-ups of enableProtectionAfterPause whose instants do not
-    decrease and in which no switch lands between the start of that goroutine
-    and the moment it gets the lock, from any state that stands for a switch:
-    at every instant from the end of the history on, protection is in force
-    iff the LAST accepted switch says so: switched on (a pending pause is
-    cancelled), or paused until an instant that has been reached. *)
+(** For EVERY history of switches (either endpoint, refused requests
+    included), clock readings (DNS requests, status reads) and wake-ups of
+    enableProtectionAfterPause whose instants do not decrease, in any
+    interleaving, from any state that stands for a switch: at every instant
+    from the end of the history on, protection is in force iff the LAST
+    accepted switch says so: switched on (a pending pause is cancelled), or
+    paused until an instant that has been reached. *)
 Theorem C01_protection_follows_last_switch :
   forall sw0 T0 s0 h t,
-  agrees sw0 T0 s0 -> ordered T0 h -> calm s0 h -> last_instant T0 h <= t ->
+  agrees sw0 T0 s0 -> ordered T0 h -> last_instant T0 h <= t ->
   in_force t (run_now s0 h) = expected (last_switch sw0 h) t.
 Proof. exact protection_follows_last_switch. Qed.
 Print Assumptions C01_protection_follows_last_switch.
-
-(** The same with a premise on the history alone: the goroutine runs right
-    after the read that started it (what one administrator and any number of
-    clients produce unless a switch hits the goroutine's start-up window). *)
-Theorem C01_protection_follows_last_switch_prompt :
-  forall sw0 T0 s0 h t,
-  agrees sw0 T0 s0 -> pr_waking s0 = false -> ordered T0 h -> prompt h -> last_instant T0 h <= t ->
-  in_force t (run_now s0 h) = expected (last_switch sw0 h) t.
-Proof. exact protection_follows_last_switch_prompt. Qed.
-Print Assumptions C01_protection_follows_last_switch_prompt.
 
 (** An accepted {"enabled": true} (either endpoint) puts protection in force
     for every later instant, whatever pause preceded it, until the next switch. *)
 Theorem C01_reenable_cancels_pause :
   forall sw0 T0 s0 h o rest t,
-  agrees sw0 T0 s0 -> ordered T0 (h ++ o :: rest) -> calm s0 (h ++ o :: rest) ->
+  agrees sw0 T0 s0 -> ordered T0 (h ++ o :: rest) ->
   switch_of o = Some SwOn -> Forall (fun x => switch_of x = None) rest ->
   last_instant T0 (h ++ o :: rest) <= t ->
   in_force t (run_now s0 (h ++ o :: rest)) = true.
@@ -582,7 +572,7 @@ Print Assumptions C01_reenable_cancels_pause.
 
 Theorem C01_pause_in_force_from_deadline :
   forall sw0 T0 s0 h o rest d t,
-  agrees sw0 T0 s0 -> ordered T0 (h ++ o :: rest) -> calm s0 (h ++ o :: rest) ->
+  agrees sw0 T0 s0 -> ordered T0 (h ++ o :: rest) ->
   switch_of o = Some (SwPause d) -> Forall (fun x => switch_of x = None) rest ->
   last_instant T0 (h ++ o :: rest) <= t ->
   in_force t (run_now s0 (h ++ o :: rest)) = (d <=? t).
@@ -602,7 +592,7 @@ Print Assumptions C01_request_reads_protection_state.
     sees  ==>  answered locally with the synthetic answer, nothing upstream. *)
 Theorem C01_blocked_is_local_after_history :
   forall allow_eng block_eng sb par ss srt c sw0 T0 s0 h t up q,
-  agrees sw0 T0 s0 -> ordered T0 h -> calm s0 h -> last_instant T0 h <= t ->
+  agrees sw0 T0 s0 -> ordered T0 h -> last_instant T0 h <= t ->
   expected (last_switch sw0 h) t = true ->
   (protection_on (cfg_after c s0 h t) = true -> blocked_by_spec allow_eng block_eng srt (cfg_after c s0 h t) q) ->
   let c' := cfg_after c s0 h t in
@@ -617,7 +607,7 @@ Print Assumptions C01_blocked_is_local_after_history.
 (** ... and while the last switch says "not in force" nothing is blocked. *)
 Theorem C01_nothing_blocked_while_switched_off :
   forall allow_eng block_eng sb par ss srt c sw0 T0 s0 h t q res,
-  agrees sw0 T0 s0 -> ordered T0 h -> calm s0 h -> last_instant T0 h <= t ->
+  agrees sw0 T0 s0 -> ordered T0 h -> last_instant T0 h <= t ->
   expected (last_switch sw0 h) t = false ->
   verdict allow_eng block_eng sb par ss srt (cfg_after c s0 h t) q = Some res ->
   r_filtered res = false /\
@@ -630,8 +620,8 @@ Print Assumptions C01_nothing_blocked_while_switched_off.
     on, paused for an hour, switched on again after a second: off until the
     old deadline, while the code as it is yields "in force". *)
 Theorem C01_reenable_keeps_deadline_refuted :
-  exists h t, prompt h /\ ordered 0 h /\ last_instant 0 h <= t /\ last_switch SwOn h = SwOn /\
-    in_force t (prot_run set_keeps_deadline conf_as_written (prot_init true None) h) = false /\
+  exists h t, ordered 0 h /\ last_instant 0 h <= t /\ last_switch SwOn h = SwOn /\
+    in_force t (prot_run set_keeps_deadline conf_as_written wake_as_written (prot_init true None) h) = false /\
     in_force t (run_now (prot_init true None) h) = true.
 Proof. exact reenable_keeps_deadline_refuted. Qed.
 Print Assumptions C01_reenable_keeps_deadline_refuted.
@@ -640,37 +630,42 @@ Print Assumptions C01_reenable_keeps_deadline_refuted.
     only): "on" during a pause stays off, "off" during a pause comes back on
     at the deadline. *)
 Theorem C01_dns_config_flag_only_refuted :
-  (exists h t, prompt h /\ ordered 0 h /\ last_instant 0 h <= t /\ last_switch SwOn h = SwOn /\
-     in_force t (prot_run set_as_written conf_flag_only (prot_init true None) h) = false /\
+  (exists h t, ordered 0 h /\ last_instant 0 h <= t /\ last_switch SwOn h = SwOn /\
+     in_force t (prot_run set_as_written conf_flag_only wake_as_written (prot_init true None) h) = false /\
      in_force t (run_now (prot_init true None) h) = true) /\
-  (exists h t, prompt h /\ ordered 0 h /\ last_instant 0 h <= t /\ last_switch SwOn h = SwOff /\
-     in_force t (prot_run set_as_written conf_flag_only (prot_init true None) h) = true /\
+  (exists h t, ordered 0 h /\ last_instant 0 h <= t /\ last_switch SwOn h = SwOff /\
+     in_force t (prot_run set_as_written conf_flag_only wake_as_written (prot_init true None) h) = true /\
      in_force t (run_now (prot_init true None) h) = false).
 Proof. exact conf_flag_only_refuted. Qed.
 Print Assumptions C01_dns_config_flag_only_refuted.
 
-(** Without the premise [calm] the statement does not hold of the code as it
-    is: a switch that lands after a request has started
-    enableProtectionAfterPause and before that goroutine holds the lock is
-    overridden (pause runs out, request, {"enabled": false}, goroutine:
-    protection on). *)
-Theorem C01_late_wake_overrides_switch_refuted : ~ follows_last_switch_in_any_interleaving_statement.
+(** enableProtectionAfterPause as it was before /repo c1dbdb6 (it did not look
+    at the pair again once it held the lock): a switch that lands after a
+    request has started the goroutine and before the goroutine has the lock is
+    overridden: {"enabled": false} -> protection on; a new pause -> cancelled. *)
+Theorem C01_late_wake_overrides_switch_refuted :
+  (exists h t, ordered 0 h /\ last_instant 0 h <= t /\ last_switch SwOn h = SwOff /\
+     in_force t (prot_run set_as_written conf_as_written wake_unconditional (prot_init true None) h) = true /\
+     in_force t (run_now (prot_init true None) h) = false) /\
+  (exists h t d, ordered 0 h /\ last_instant 0 h <= t /\ last_switch SwOn h = SwPause d /\ t < d /\
+     in_force t (prot_run set_as_written conf_as_written wake_unconditional (prot_init true None) h) = true /\
+     in_force t (run_now (prot_init true None) h) = false).
 Proof. exact late_wake_overrides_switch_refuted. Qed.
 Print Assumptions C01_late_wake_overrides_switch_refuted.
 
 Example C01_protection_premises_satisfiable :
   agrees SwOn 0 (prot_init true None) /\
-  ordered 0 [PSet 0 false hour; PRead 1000; PWake; PConf true; PRead (2 * hour); PWake] /\
-  prompt [PSet 0 false hour; PRead 1000; PWake; PConf true; PRead (2 * hour); PWake] /\
-  last_switch SwOn [PSet 0 false hour; PRead 1000; PWake; PConf true; PRead (2 * hour); PWake] = SwOn /\
-  last_switch SwOn [PSet 0 false hour; PRead 1000; PWake] = SwPause hour /\
+  ordered 0 [PSet 0 false hour; PRead 1000; PConf true; PRead (2 * hour); PSet (2 * hour) false hour; PWake (2 * hour)] /\
+  last_switch SwOn [PSet 0 false hour; PRead 1000; PWake 1000; PConf true; PRead (2 * hour); PWake (2 * hour)] = SwOn /\
+  last_switch SwOn [PSet 0 false hour; PRead 1000; PWake 1000] = SwPause hour /\
   in_force 1000 (run_now (prot_init true None) [PSet 0 false hour]) = false /\
-  in_force (hour + 1) (run_now (prot_init true None) [PSet 0 false hour]) = true.
+  in_force (hour + 1) (run_now (prot_init true None) [PSet 0 false hour]) = true /\
+  in_force (hour + 3) (run_now (prot_init true None) late_wake_history) = false.
 Proof. exact premises_satisfiable. Qed.
 
 Example C01_blocked_premises_after_history :
   forall m,
-  let h := [PSet 0 false hour; PRead 1000; PWake; PSet 2000 true 0] in
+  let h := [PSet 0 false hour; PRead 1000; PWake 1000; PSet 2000 true 0] in
   expected (last_switch SwOn h) 3000 = true /\
   blocked_by_spec (match_request []) (match_request ex_block_rules) Rewrites.isort
     (cfg_after (ex_cfg m) (prot_init true None) h 3000) ex_query.
